@@ -177,8 +177,8 @@ fn lwe_run<B: FullBackend>(m: &poulpy_hal::layouts::Module<B>, c: &LweCase) -> (
     use poulpy_core::layouts::compressed::{LWECompressed, LWEDecompress};
     use poulpy_core::layouts::{Base2K, Degree, LWE, LWELayout, LWEPlaintext, LWESecret, TorusPrecision};
     use poulpy_core::{EncryptionLayout, LWEEncryptSk};
-    use poulpy_hal::api::{ScratchOwnedAlloc, ScratchOwnedBorrow};
-    use poulpy_hal::layouts::{NoiseInfos, ReaderFrom, ScratchOwned, WriterTo, ZnxViewMut};
+    use poulpy_hal::api::{ScratchOwnedBorrow};
+    use poulpy_hal::layouts::{NoiseInfos, ReaderFrom, WriterTo, ZnxViewMut};
     let (b, size) = (c.base2k as usize, c.size as usize);
     let k = size * b - c.krem as usize;
     let n_lwe = c.n_lwe as usize;
@@ -193,7 +193,7 @@ fn lwe_run<B: FullBackend>(m: &poulpy_hal::layouts::Module<B>, c: &LweCase) -> (
         pt.data_mut().at_mut(0, j)[0] = v[0];
     }
     let seed = seed32(c.seed, 0xA);
-    let mut scratch = ScratchOwned::<B>::alloc(m.lwe_encrypt_sk_tmp_bytes(&lay) + 4096);
+    let mut scratch = pzv_be::dirty_scratch::<B>(m.lwe_encrypt_sk_tmp_bytes(&lay) + 4096);
     let mut ct = LWE::alloc_from_infos(&lay);
     m.lwe_encrypt_sk(&mut ct, &pt, &sk, &enc, &mut Source::new(seed32(c.seed, 0xE)), &mut Source::new(seed), scratch.borrow());
     // compressed form (seed, body), assembled through the public serialisation: k, base2k, seed, VecZnx(n=1)
